@@ -176,7 +176,7 @@ def plan_targets(graph, rng=None, sample=None):
 _G = {}
 
 
-PATH_TIMEOUT_S = 90      # one replayed path normally takes milliseconds
+PATH_TIMEOUT_S = 40      # one replayed path normally takes milliseconds
 
 
 class PathTimeout(BaseException):
@@ -217,8 +217,8 @@ def _worker(args):
         done += 1
         if d is not None:
             divs.append(d.to_json())
-            if len(divs) >= 50:
-                break
+            if len(divs) >= 50 or d.kind == 'hang':
+                break           # a hanging implementation would cost a time-out per path
         elif keep_obs:
             kept.append(_thaw(obs))
     return done, steps, divs, kept
